@@ -23,6 +23,7 @@ import (
 	"errors"
 	"fmt"
 	"regexp"
+	"sort"
 	"strconv"
 	"strings"
 	"time"
@@ -391,6 +392,13 @@ func GetUniqueTraceIds(pipeSearchResponseOuter *segstructs.PipeSearchResponseOut
 	if endIndex > totalTracesIds {
 		endIndex = totalTracesIds
 	}
+
+	// the bucket order of `stats ... BY trace_id` differs from request to request: without a fixed order the pages of one
+	// listing overlap and skip traces
+	sort.SliceStable(pipeSearchResponseOuter.MeasureResults, func(i, j int) bool {
+		a, b := pipeSearchResponseOuter.MeasureResults[i].GroupByValues, pipeSearchResponseOuter.MeasureResults[j].GroupByValues
+		return len(a) == 1 && len(b) == 1 && a[0] < b[0]
+	})
 
 	traceIds := make([]string, 0)
 	for _, bucket := range pipeSearchResponseOuter.MeasureResults[(page-1)*TRACE_PAGE_LIMIT : endIndex] {
